@@ -133,8 +133,12 @@ class Keccak(object):
 
     # Duplex construction (see "Cryptographic Sponge Functions", http://sponge.noekeon.org)
     def duplex(self,m,bitlen=None,outlen=None):
+        d0 = self.duplexing
         self.duplexing = True
-        L = [x for x in self.iterblocks(m,bitlen)]
+        try:
+            L = [x for x in self.iterblocks(m,bitlen)]
+        finally:
+            self.duplexing = d0
         assert len(L)==1
         if outlen is None: outlen=self.r
         if not hasattr(self,'_S'):
